@@ -155,12 +155,16 @@ def call_function(it, fn, args, kwargs):
 def clause_args(it, cfn, ns):
     """Pick the arguments of a contract clause function by parameter name."""
     sig = inspect.signature(cfn)
-    out = []
-    for p in sig.parameters:
-        if p not in ns:
-            raise EngineError(f'clause {cfn.__qualname__}: unknown parameter {p}')
-        out.append(ns[p])
-    return out
+    names = list(sig.parameters)
+    if all(p in ns for p in names):
+        return [ns[p] for p in names]
+    # a spec function used directly as a clause: positional over the function's own parameters
+    pos = [v for k, v in ns.items() if k not in ('old', 'result', 'exc')]
+    if len(pos) == len(names) + 1 and next(iter(ns)) == 'cls':
+        pos = pos[1:]
+    if len(pos) != len(names):
+        raise EngineError(f'clause {cfn.__qualname__}: cannot bind parameters {names}')
+    return pos
 
 
 def eval_clause(it, cfn, ns):
